@@ -41,7 +41,13 @@ def real_affine(w):
     c = np.array(w["c"], dtype=np.float64).reshape(m, 3)
     t = np.array(w["t"], dtype=np.float64).reshape(m, 3)
     X = np.array(w["X"], dtype=np.float64).reshape(m, -1, 3)
-    tr = AffineTransformation(c if m > 1 else c[0], R if m > 1 else R[0], t if m > 1 else t[0])
+    shared = w.get("shared")
+    tr = AffineTransformation((c[:1] if shared == "shared center" else c) if m > 1 else c[0], R if m > 1 else R[0],
+                              (t[:1] if shared == "shared target" else t) if m > 1 else t[0])
+    if shared == "shared center":
+        c = np.repeat(c[:1], m, axis=0)
+    if shared == "shared target":
+        t = np.repeat(t[:1], m, axis=0)
     x_in = X.astype(np.float32) if m > 1 else X[0].astype(np.float32)
     got = np.asarray(tr.apply(x_in), dtype=np.float64).reshape(m, -1, 3)
     M = tr.as_matrix()
@@ -60,7 +66,7 @@ def ob_affine(tier):
     sp = mod()
     cases = []
     LIM = 8
-    for m, n, as_stack in ((1, 2, False), (1, 1, True), (2, 2, True)) + (() if tier == "quick" else ((3, 1, True), (2, 3, True))):
+    for m, n, as_stack in ((1, 2, False), (1, 1, True), (2, 2, True), (2, 1, "shared target"), (2, 1, "shared center")) + (() if tier == "quick" else ((3, 1, True), (2, 3, True))):
         R = [[[z3.Int(f"r{k}{i}{j}") for j in range(3)] for i in range(3)] for k in range(m)]
         C = [[z3.Int(f"c{k}{i}") for i in range(3)] for k in range(m)]
         T = [[z3.Int(f"t{k}{i}") for i in range(3)] for k in range(m)]
@@ -73,10 +79,19 @@ def ob_affine(tier):
             rot = rnp.RNP.array([[[q(v) for v in row] for row in R[k]] for k in range(m)]) if as_stack else rnp.RNP.array([[q(v) for v in row] for row in R[0]])
             cen = rnp.RNP.array([[q(v) for v in C[k]] for k in range(m)]) if as_stack else rnp.RNP.array([q(v) for v in C[0]])
             tar = rnp.RNP.array([[q(v) for v in T[k]] for k in range(m)]) if as_stack else rnp.RNP.array([q(v) for v in T[0]])
+            # a stack superimposed onto ONE fixed model has a single target translation for all models (and vice versa)
+            if as_stack == "shared target":
+                tar = rnp.RNP.array([[q(v) for v in T[0]]])
+                T = [T[0]] * m
+            if as_stack == "shared center":
+                cen = rnp.RNP.array([[q(v) for v in C[0]]])
+                C = [C[0]] * m
             xs = rnp.RNP.array([[[q(v) for v in a] for a in X[k]] for k in range(m)]) if as_stack else rnp.RNP.array([[q(v) for v in a] for a in X[0]])
             tr = sp.AffineTransformation(cen, rot, tar)
             got = tr.apply(xs)
             M = tr.as_matrix()
+            if len(M.data) != m:
+                return False
             conds = []
             for k in range(m):
                 for a in range(n):
@@ -94,7 +109,7 @@ def ob_affine(tier):
                 # last row of the homogeneous matrix
                 conds += [_t(M.data[k][3][j]) == (1 if j == 3 else 0) for j in range(4)]
             return z3.And(*conds)
-        wit = dict(m=m, R=[[[z3.ToReal(v) / 2 for v in row] for row in R[k]] for k in range(m)], c=[[z3.ToReal(v) / 2 for v in C[k]] for k in range(m)],
+        wit = dict(m=m, shared=as_stack if isinstance(as_stack, str) else None, R=[[[z3.ToReal(v) / 2 for v in row] for row in R[k]] for k in range(m)], c=[[z3.ToReal(v) / 2 for v in C[k]] for k in range(m)],
                    t=[[z3.ToReal(v) / 2 for v in T[k]] for k in range(m)], X=[[[z3.ToReal(v) / 2 for v in a] for a in X[k]] for k in range(m)])
         cases.append(Case(f"AffineTransformation: {m} model(s) x {n} atom(s), {'stack' if as_stack else 'array'}", base, run, wit, real_affine, timeout=600, solver_ms=120000))
     return cases
@@ -165,3 +180,129 @@ def ob_frame(tier):
                        X=[[[z3.ToReal(v) / 2 for v in a] for a in X[k]] for k in range(m)] if stack else [[z3.ToReal(v) / 2 for v in a] for a in X[0]], mask=mask)
             cases.append(Case(f"superimpose frame: {m} model(s), mask {mask}", base, run, wit, real_frame, timeout=600, solver_ms=120000))
     return cases
+
+
+# ------------------------------------------------------------------------------ outlier-tolerant variant (class E)
+def check_outliers(si, oi, it, ma):
+    """superimpose_without_outliers on concrete point sets (real numpy): the returned transformation IS the fit on the
+    returned anchors (re-superimposing with exactly those anchors gives the same transformation), it reproduces the
+    returned coordinates, at least min_anchors anchors are kept, and with max_iterations=1 every atom is an anchor"""
+    import numpy as np
+    import biotite.structure as struc
+    rng_sets = [
+        [(0, 0, 0), (1, 0, 0), (0, 2, 0), (0, 0, 3), (1, 1, 1), (2, 1, 0), (0, 1, 2), (3, 0, 1), (1, 3, 2), (2, 2, 2)],
+        [(0, 0, 0), (1.5, 0, 0), (3, 0.5, 0), (4.5, 0, 1), (6, 0, 0), (7.5, 1, 0), (9, 0, 0.5), (10.5, 0, 0), (12, 1, 1), (13.5, 0, 0)],
+    ]
+    fixed = np.array(rng_sets[si], dtype=np.float32)
+    n = len(fixed)
+    # mobile = rotated + translated copy, with `oi` atoms displaced by increasing amounts
+    c, s = np.cos(0.7), np.sin(0.7)
+    R = np.array([[c, -s, 0], [s, c, 0], [0, 0, 1]])
+    mobile = (fixed.astype(float) @ R.T + np.array([5.0, -2.0, 1.0])).astype(np.float32)
+    for k in range(oi):
+        mobile[2 * k + 1] += np.float32(4.0 + 3.0 * k)
+    max_iter = [1, 2, 10][it]
+    min_anchors = [3, 6, 9][ma]
+    fitted, tr, anchors = struc.superimpose_without_outliers(fixed, mobile, min_anchors=min_anchors, max_iterations=max_iter)
+    anchors = np.asarray(anchors)
+    if len(anchors) < min(min_anchors, n) or len(set(anchors.tolist())) != len(anchors) or not np.all((anchors >= 0) & (anchors < n)):
+        return f"anchors {anchors.tolist()} (min_anchors {min_anchors})"
+    if max_iter == 1 and sorted(anchors.tolist()) != list(range(n)):
+        return f"max_iterations=1 but anchors {anchors.tolist()}"
+    if not np.allclose(tr.apply(mobile), fitted, atol=1e-4):
+        return "transformation.apply(mobile) != returned coordinates"
+    mask = np.zeros(n, dtype=bool)
+    mask[anchors] = True
+    ref_fit, ref_tr = struc.superimpose(fixed, mobile, atom_mask=mask)
+    if not np.allclose(ref_fit, fitted, atol=2e-3):
+        worst = float(np.abs(ref_fit - fitted).max())
+        return f"the returned fit is not the superimposition on the returned anchors {sorted(anchors.tolist())} (max deviation {worst:.4f}; {oi} displaced atoms, max_iterations {max_iter}, min_anchors {min_anchors})"
+    return None
+
+
+def ob_outliers(tier):
+    s, o, i, m = z3.Ints("s o i m")
+
+    def run():
+        from vf.sx.core import cur
+        ex = cur()
+        return check_outliers(ex.choose(s, range(2)), ex.choose(o, range(4)), ex.choose(i, range(3)), ex.choose(m, range(3))) is None
+
+    def rep(w):
+        try:
+            r = check_outliers(w["si"], w["oi"], w["it"], w["ma"])
+            return r is None, str(r)
+        except Exception as e:
+            import traceback
+            return False, f"{type(e).__name__}: {e} | {traceback.format_exc()[-300:]}"
+    return [Case("superimpose_without_outliers: anchors vs transformation", [s >= 0, s < 2, o >= 0, o < 4, i >= 0, i < 3, m >= 0, m < 3], run,
+                 dict(si=s, oi=o, it=i, ma=m), rep)]
+
+
+# ------------------------------------------------------------------------------ degenerate point sets (class E)
+POINT_SETS = {
+    "general": [(0, 0, 0), (1, 0, 0), (0, 2, 0), (0, 0, 3), (1, 1, 1)],
+    "planar ring": [(2, 0, 0), (1, 1.732, 0), (-1, 1.732, 0), (-2, 0, 0), (-1, -1.732, 0), (1, -1.732, 0)],
+    "planar irregular": [(0, 0, 0), (3, 0, 0), (0, 1, 0), (2, 2, 0), (-1, 4, 0)],
+    "collinear": [(0, 0, 0), (1, 0, 0), (2.5, 0, 0), (7, 0, 0)],
+    "two atoms": [(0, 0, 0), (0, 0, 2)],
+    "one atom": [(1, 2, 3)],
+    "mirror ambiguous": [(1, 0, 0), (-1, 0, 0), (0, 1, 0), (0, -1, 0)],
+}
+
+
+def check_degenerate(pi, axis_i, angle_i, extra):
+    """exact rigid copies of degenerate point sets (real numpy / LAPACK): the rotation is proper and orthonormal and the
+    copy is fitted back with RMSD ~ 0; an extra atom outside the anchor plane is not mirrored"""
+    import numpy as np
+    import biotite.structure as struc
+    name = list(POINT_SETS)[pi]
+    fixed = np.array(POINT_SETS[name], dtype=np.float64)
+    axis = [np.array(a, dtype=float) for a in ((1, 0, 0), (0, 1, 0), (0, 0, 1), (1, 1, 0), (1, 2, 3))][axis_i]
+    axis /= np.linalg.norm(axis)
+    ang = [0.0, np.pi, np.pi / 2, 2.0, np.pi - 1e-3][angle_i]
+    K = np.array([[0, -axis[2], axis[1]], [axis[2], 0, -axis[0]], [-axis[1], axis[0], 0]])
+    R = np.eye(3) + np.sin(ang) * K + (1 - np.cos(ang)) * (K @ K)
+    n = len(fixed)
+    allpts = fixed
+    mask = None
+    if extra and n >= 3:
+        # one more atom off the anchor set (e.g. above the plane); only the original atoms are anchors
+        allpts = np.vstack([fixed, fixed.mean(axis=0) + np.array([0.3, -0.2, 1.7])])
+        mask = np.array([True] * n + [False])
+    mobile = allpts @ R.T + np.array([3.0, -1.0, 2.0])
+    fitted, tr = struc.superimpose(allpts.astype(np.float32), mobile.astype(np.float32), atom_mask=mask)
+    rot = np.asarray(tr.rotation, dtype=float).reshape(3, 3)
+    if abs(np.linalg.det(rot) - 1) > 1e-3 or np.abs(rot @ rot.T - np.eye(3)).max() > 1e-3:
+        return f"{name}: rotation with determinant {np.linalg.det(rot):.4f} (axis {axis.tolist()}, angle {ang:.4f})"
+    sel = slice(None) if mask is None else mask
+    dev = float(np.sqrt(((np.asarray(fitted, dtype=float)[sel] - allpts[sel]) ** 2).sum(axis=1).mean()))
+    if dev > 2e-3:
+        return f"{name}: rigid copy fitted with RMSD {dev:.5f} (axis {axis.tolist()}, angle {ang:.4f})"
+    rank = np.linalg.matrix_rank(fixed - fixed.mean(axis=0), tol=1e-6)
+    if mask is not None and rank == 2:
+        # planar anchors determine the proper rotation uniquely: the off-plane atom must come back to its place
+        d = float(np.linalg.norm(np.asarray(fitted, dtype=float)[-1] - allpts[-1]))
+        if d > 5e-3:
+            return f"{name}: the atom outside the anchor plane lands {d:.4f} away from its place (mirror image?) (axis {axis.tolist()}, angle {ang:.4f})"
+    return None
+
+
+def ob_degenerate(tier):
+    p, a, g, e = z3.Ints("p a g e")
+    npts = len(POINT_SETS)
+
+    def run():
+        from vf.sx.core import cur
+        ex = cur()
+        return check_degenerate(ex.choose(p, range(npts)), ex.choose(a, range(5)), ex.choose(g, range(5)), ex.choose(e, range(2))) is None
+
+    def rep(w):
+        try:
+            r = check_degenerate(w["pi"], w["axis_i"], w["angle_i"], w["extra"])
+            return r is None, str(r)
+        except Exception as ex_:
+            import traceback
+            return False, f"{type(ex_).__name__}: {ex_} | {traceback.format_exc()[-300:]}"
+    return [Case("rigid copies of degenerate point sets", [p >= 0, p < npts, a >= 0, a < 5, g >= 0, g < 5, e >= 0, e <= 1], run,
+                 dict(pi=p, axis_i=a, angle_i=g, extra=e), rep)]
